@@ -5,6 +5,9 @@ use crate::models::*;
 use cgt_money::FxCache;
 use chrono::NaiveDate;
 use rust_decimal::Decimal;
+#[cfg(feature = "verif-hooks")]
+use crate::verif_map::Map as HashMap;
+#[cfg(not(feature = "verif-hooks"))]
 use std::collections::HashMap;
 
 /// Calculate CGT report.
